@@ -67,6 +67,9 @@ KINDS = {
     "W2309": ("01", lambda z: (" W", "2309", f"{z}07D0"), lambda z, t: (" I", f"{z}07D0"), "zone"),
     "1F09": ("01", lambda z: ("RQ", "1F09", "00"), lambda z, t: ("RP", f"00{t:04X}"), "none"),
     "313F": ("01", lambda z: ("RQ", "313F", "00"), lambda z, t: ("RP", "00FC0029D6050B07E7"), "none"),
+    # an announcement from the gateway's own address: echo only (z = a value byte that makes the frame unique; the index is 00)
+    "GI0008": ("18", lambda z: (" I", "0008", f"00{z}"), None, "own"),
+    "GI30C9": ("18", lambda z: (" I", "30C9", f"0008{z}"), None, "own"),
     "I30C9": ("03", lambda z: (" I", "30C9", "000834"), None, "imp"),  # impersonation, no reply
     "I0008": ("13", lambda z: (" I", "0008", "00C8"), None, "imp"),
 }
@@ -76,6 +79,8 @@ DOMAIN_ROLES = ["000D", "000E", "010E", "000F"]
 
 
 def ctx_values(space: str, r) -> str:
+    if space == "own":
+        return f"{r.randrange(0xC9):02X}"
     if space == "zone":
         return f"{r.randrange(12):02X}"
     if space == "log":
@@ -131,7 +136,7 @@ class Op:
         verb, code, payload = req(self.z)
         self.verb, self.code, self.payload = verb, code, payload
         self.src = d.get("src", PLACEHOLDER)
-        if verb == " I" and rep is None:  # announcements from a faked device: src == dst
+        if verb == " I" and rep is None:  # announcements from a faked device / the gateway itself: src == dst
             self.frame = f"{verb} --- {self.src} --:------ {self.src} {code} {len(payload) // 2:03d} {payload}"
         else:
             self.frame = _rq(self.src, self.dst, code, payload, verb)
@@ -220,16 +225,23 @@ def generate(plan) -> None:
                 kind = r.choice(kinds)
                 dtype, req, rep, space = KINDS[kind]
                 z = ctx_values(space, r)
-                dst = f"{dtype}:{r.choice([145038, 145039, 220768]):06d}"
-                if (kind[:4] if kind.startswith("0418") else kind, z, dst) not in used:
-                    used.add((kind[:4] if kind.startswith("0418") else kind, z, dst))
+                dst = f"{dtype}:{r.choice([145038, 145039, 220768]):06d}" if space != "own" else k["gid"]
+                # (announcements from the gateway's own address share one header per code whatever they say: one of a kind per run,
+                #  or the late echo of the first would be -- legitimately -- taken for the echo of the second)
+                key = (kind, "", "") if space == "own" else (kind[:4] if kind.startswith("0418") else kind, z, dst)
+                if key not in used:
+                    used.add(key)
                     break
+            else:
+                continue
             d = {"op": "send", "id": oid, "caller": c, "at": round(t, 4), "kind": kind, "z": z, "dst": dst,
                  "prio": r.choice(PRIOS), "max_retries": r.choice([0, 1, 2, 3, 3, 5]),
                  "timeout": r.choice(TIMEOUTS), "wfr": r.choice([None, False, True, True]),
                  "num_repeats": r.choice([0, 0, 0, 1, 3])}
             if space == "imp":
                 d["src"] = dst
+            elif space == "own":  # under the dongle's real address (the library announces that with a 7FFF alert first, as for any
+                d["src"] = k["gid"]  # non-placeholder source)
             elif kind == "W1FC9":  # an accept is sent on behalf of the (faked) respondent, never from the gateway's own address
                 d["src"] = r.choice(["30:111111", "07:045960", "01:220768"])
             elif sc != "match" and r.random() < 0.06:
@@ -327,6 +339,7 @@ class QosSim:
         self.foreign_frames: dict[str, str] = {}  # frame text -> class
         self.tasks = {}
         self.inflight_faults = 0
+        self.cancelled_callers: set[int] = set()
         self.engine = None
 
     def now(self) -> float:
@@ -482,6 +495,8 @@ class QosSim:
         """A near-miss of op's echo or reply that differs in exactly one attribute."""
         self.tag += 1
         if op.rep is None:
+            if op.space == "own" and what == "dev":  # the same announcement from somebody else's gateway
+                return op.frame.replace(op.src, "18:222222")
             return None
         if what == "code":
             alt = {"30C9": "2309", "2309": "30C9", "2349": "2309", "12B0": "2309"}.get(op.code)
@@ -638,6 +653,10 @@ class QosSim:
         self.connected = True
         for op in self.ops.values():
             self.by_wire[op.wire(self.gid)] = op
+            # two bind accepts to one addressee share a header whatever their index (KF12): each one's echo / confirm can be taken
+            # for the other's, so their retry timing is not judged (as for any documented header collision)
+            if op.kind == "W1FC9" and any(o is not op and o.kind == "W1FC9" and o.dst == op.dst for o in self.ops.values()):
+                op.collisions += 1
         # observe the hand-off protocol -> transport (before the limiter / leaker delays)
         orig_wf = self.tr.write_frame
         sim0 = self
@@ -758,6 +777,7 @@ class QosSim:
         t = self.tasks.get(cid)
         if t is not None and not t.done():
             self.hub.count("caller_cancel")
+            self.cancelled_callers.add(cid)
             t.cancel()
 
     async def run(self) -> None:
@@ -808,6 +828,9 @@ def oracle_c07(sim: QosSim) -> None:
             continue
         kind = op.outcome[0]
         if kind == "cancelled":
+            if op.d["caller"] not in sim.cancelled_callers:
+                ctx.violate("C07", "exc_type", "CancelledError", f"op{op.id} {op.frame}: the call ended with CancelledError although "
+                            f"nobody cancelled its caller")
             continue
         if kind == "other":
             ctx.violate("C07", "exc_type", op.outcome[1], f"op{op.id} {op.frame}: {op.outcome}")
